@@ -24,11 +24,24 @@ and barriered). C19: source/destination port swapped in a convertor. C01: string
 `<= 255` in StringInfoElement.GetLength. Reverting each `fix:` commit is killed by the check that found
 the defect (its replay is in replays/fixed/).
 """
+nb = {1: [0, 0], 2: [0, 0], 3: [0, 0]}
+for r in rows:
+    rid = r.split("|")[1]
+    k = 3 if "-r3-" in rid else 2 if "-r2-" in rid else 1
+    nb[k][0] += 1
+    nb[k][1] += "(as built)" in r
 table = ("Changes written by sub-agents that saw only the property text (section 4.2). Ids with -r2- are from a second\n"
          "round whose authors were told that single-site slips had all been caught and were asked for long sequences,\n"
-         "narrow input regions, two cooperating edits, reuse/leak and error-path faults. `caught by` names the check(s)\n"
-         "whose quick tier reports a VIOLATION with the patch applied to /repo; \"after strengthening\" means the check\n"
-         "missed the change at first and was extended (what was added is in the section 3 notes and in meta.json).\n\n"
+         "narrow input regions, two cooperating edits, reuse/leak and error-path faults. Ids with -r3- are from a third\n"
+         "round whose authors were told what the first two rounds had covered and were asked for a different kind:\n"
+         "dependence on map iteration order, integer width or overflow at unusual magnitudes, branches only entered in a\n"
+         "less common configuration or for a less common data type, resource growth that only shows after many\n"
+         "operations, two public functions that are rarely combined. `caught by` names the check(s) whose quick tier\n"
+         "reports a VIOLATION with the patch applied to /repo; \"as built\" means some check caught it before anything was\n"
+         "changed, \"after strengthening\" that every check missed it at first and the owning check was extended (what was\n"
+         "added is in the section 3 notes and in meta.json). Caught as built: round 1 %d of %d, round 2 %d of %d, round 3\n"
+         "%d of %d; all %d are caught by the checks as they are now (`tools/regress_mutants.sh` re-runs every filed change\n"
+         "against the checks recorded for it).\n\n" % (nb[1][1], nb[1][0], nb[2][1], nb[2][0], nb[3][1], nb[3][0], len(rows)) +
          "| id | file | change | needs | caught by |\n|---|---|---|---|---|\n" + "\n".join(rows) + "\n" + hand)
 p = os.path.join(root, "DESIGN.md")
 s = open(p).read()
